@@ -66,16 +66,16 @@ struct CallOutcome {
     expect_reply_in_time: bool,
 }
 
-fn echo(wave: usize, idx: usize) -> Value {
+pub fn echo(wave: usize, idx: usize) -> Value {
     Value::Tuple(vec![Value::atom("rex"), Value::Tuple(vec![Value::atom("echo"), Value::int(wave as i128), Value::int(idx as i128)])])
 }
 
-fn arg(wave: usize, idx: usize) -> OwnedTerm {
+pub fn arg(wave: usize, idx: usize) -> OwnedTerm {
     OwnedTerm::Tuple(vec![OwnedTerm::Integer(wave as i64), OwnedTerm::Integer(idx as i64)])
 }
 
 /// (reply pid, wave, idx) from a REG_SEND to rex
-fn parse_request(frame: &[u8]) -> Result<(Value, usize, usize), String> {
+pub fn parse_request(frame: &[u8]) -> Result<(Value, usize, usize), String> {
     let (ctrl, payload) = parse_pass_through(frame)?;
     let Value::Tuple(c) = &ctrl else { return Err(format!("control {}", ctrl.render())) };
     if c.len() != 4 || c[0] != Value::int(6) || c[3] != Value::atom("rex") {
